@@ -4,7 +4,7 @@ from .. import core
 from .modcommon import run_mod
 
 PROOF = "Props/C12.v"
-RUN_FILES = ["Run/ModuleRun.v", "Run/FrameRun.v"]
+RUN_FILES = ["Run/ModuleRun.v", "Run/FrameRun.v", "Run/ModBytesRun.v"]
 CORR_NAME = "parseM / gc / emitM models vs. real parse, gc, emit_wasm on fixtures and generated modules; byte-level framing model vs. wasmparser / wasm-encoder / what walrus stores"
 ASSUMPTIONS = [
     "Model/ParseM.v, EmitM.v, GC.v are hand-written executable models of src/module/*.rs and src/passes/*.rs; attribute plumbing (Gen/Attrs.v), operator tables (Gen/Ops.v) and hook shapes are regenerated from the source; the models are tied to the code by replaying every (module, configuration) case on them and comparing the emitted section stream (this run)",
@@ -36,6 +36,32 @@ def frame_run(ctx, thorough, search):
     return dis, ov, cov
 
 
+def modbytes_run(ctx, thorough, search):
+    """the whole module as bytes (Model/ModBytes.v): the model's reader on the bytes of every input and of walrus's output vs. the section stream the
+    harness prints (the input of parseM); on walrus's outputs the model's writer must reproduce the bytes exactly"""
+    out = os.path.join(ctx.work, ("search" if search else "corr") + "_modbytes")
+    rc, o, dt = core.sh([core.vh(), "modbytes", out, str(ctx.seed + (58 if search else 0)), str(300 if thorough else 30)], timeout=2400)
+    if rc != 0:
+        return [{"error": "modbytes harness failed", "out": o[-600:]}], {}
+    meta = json.load(open(os.path.join(out, "meta.json")))
+    results, errors = core.coq_eval(out, "cases_modbytes_*.v")
+    dis = [{"file": f, "coq_error": m[-400:]} for f, m in errors.items()]
+    names = {101: "the model's reader gives another section stream than the harness printed for these bytes", 102: "the model's reader fails on the bytes", 103: "the model's writer does not reproduce walrus's output bytes",
+             104: "the model's writer fails on the stream of walrus's output", 105: "something outside the model (skipped)"}
+    n, hist = 0, {}
+    for f, codes in results.items():
+        n += len(codes)
+        for i, c in enumerate(codes):
+            hist[c] = hist.get(c, 0) + 1
+            if c not in (0, 105):
+                dis.append({"code": c, "meaning": names.get(c, "?"), "file": os.path.basename(f), "case_index": i})
+    cov = {k: v for k, v in meta.items() if not isinstance(v, (list, dict)) or k in ("samples",)}
+    cov["evaluated_in_coq"] = n
+    cov["codes"] = {str(k): v for k, v in sorted(hist.items())}
+    cov["rule"] = "corpus, fixtures, generated attribute and body modules and hand-written variants (all 8 element forms and the data forms with padded LEB128, name-section variants with skipped / unknown / repeated / truncated subsections and bad UTF-8, producers variants, custom-section mixes), each at most ~1500 bytes: for the INPUT bytes the model's reader (with operator positions) must give the section stream the harness prints for parseM; for walrus's OUTPUT the reader must agree as well and the writer must reproduce the bytes exactly"
+    return dis, cov
+
+
 def correspondence(ctx, thorough, search):
     r = run_mod(ctx, thorough, search, "C12")
     dis, ov, cov = frame_run(ctx, thorough, search)
@@ -43,5 +69,9 @@ def correspondence(ctx, thorough, search):
     r["oracle_violations"] += ov
     r["coverage"]["framing"] = cov
     r["coverage"]["traces_validated_against_impl"] = r["coverage"].get("traces_validated_against_impl", 0) + cov.get("evaluated_in_coq", 0)
+    d2, c2 = modbytes_run(ctx, thorough, search)
+    r["disagreements"] += d2
+    r["coverage"]["module_bytes"] = c2
+    r["coverage"]["traces_validated_against_impl"] += c2.get("evaluated_in_coq", 0)
     r["coverage"]["rule"] = r["coverage"].get("rule", "") + " || framing: corpus, fixtures and generated modules of at most 900 bytes: the input's sections as wasmparser's BinaryReader sees them, walrus's output (reader AND writer: the model re-produces the bytes), the (name, data) walrus keeps for every uninterpreted custom section (incl. names of 128 bytes and more and padded name lengths), body offsets of the emitted code section"
     return r
